@@ -59,7 +59,7 @@ class C05(core.Check):
     required_buckets = {b: 3 for b in [
         'boundary:ends-at-zone-end', 'boundary:one-past-zone-end', 'boundary:ends-at-global-end', 'boundary:one-past-global-end',
         'org:zone-offset-0', 'org:zone-offset-last', 'org:zone-offset-past', 'org:bare-after-zone', 'org:GLOBAL-relative',
-        'same-zone>=3-stretches', 'create:valid', 'create:outside-global', 'create:duplicate', 'create:duplicate/same-range', 'macro-of-part-byte-steps-at-a-zone-edge', 'zone-names-differing-in-letter-case-only', 'create:inverted',
+        'same-zone>=3-stretches', 'create:valid', 'create:outside-global', 'create:duplicate', 'create:duplicate/same-range', 'zone-selected-inside-a-muted-block', 'create:in-a-branch-that-is-not-compiled', 'macro-of-part-byte-steps-at-a-zone-edge', 'zone-names-differing-in-letter-case-only', 'create:inverted',
         'create:beyond-width', 'layout:global-redefined', 'layout:overlapping', 'layout:adjacent', 'layout:nested',
         'include-from-zone', 'include-from-zone-then-continue', 'org:zone-offset-negative', 'org:bare-literal-inside-selected-zone', 'zerountil-in-zone', 'zone-switch-in-unselected-branch', 'isa-zone:inverted', 'isa-zone:beyond-width', 'inverted-by-1', 'expect:ACCEPT', 'expect:REJECT', 'isa-zone:reaches-beyond-redefined-GLOBAL', 'isa-zone:reaches-above', 'isa-zone:reaches-below']}
 
@@ -338,6 +338,8 @@ class C05(core.Check):
             d = ['at-end', 'past-end', None, 'org-past', 'org-below', 'bare-org-into-zone'][i % 6] if i < n_pre else rng.choice(['at-end', 'past-end', 'org-past', 'org-below', 'bare-org-into-zone', None, None, None])
             yield self.build(rng, d)
         yield from self.sticking_out_cases()
+        yield from self.muted_selection_cases()
+        yield from self.uncompiled_declaration_cases()
         yield from self.macro_at_zone_end_cases()
         yield from self.case_twin_zone_cases()
         for i in range(140 if tier == 'quick' else 1400):
@@ -383,6 +385,40 @@ class C05(core.Check):
                     isa = gen_prog.layout_isa(ab, zones=zones)
                     yield self.finish(rng, isa, main, {}, ab, zones, None, None,
                                       {'macro-of-part-byte-steps-at-a-zone-edge' if mname != 'duo' else 'macro-at-a-zone-edge', 'boundary:' + where})
+
+    def uncompiled_declaration_cases(self):
+        """a zone declaration in a branch that is not compiled declares nothing: the name stays free, and unknown"""
+        C = lambda t: {'k': 'comment', 'text': t}                     # noqa: E731
+        D = lambda *v: {'k': 'data', 'width': 1, 'vals': list(v)}     # noqa: E731
+        mk = lambda a, b: {'k': 'create_memzone', 'name': 'ZD', 'start': a, 'end': b}     # noqa: E731
+        for k, (main, force) in enumerate([
+                ([D(1), C('#if 0\n#create_memzone ZD $20 $2F\n#endif'), {'k': 'memzone', 'name': 'ZD'}, D(2)], 'REJECT'),
+                ([D(1), C('#ifdef C05_NOT_DEFINED\n#create_memzone ZD $20 $2F\n#endif'), {'k': 'org', 'addr': 2, 'zone_name': 'ZD'}, D(2)], 'REJECT'),
+                ([D(1), C('#ifdef C05_BIG\n#create_memzone ZD $20 $2F\n#else'), mk(0x40, 0x4F), C('#endif'), {'k': 'memzone', 'name': 'ZD'}, D(2, 3)], None),
+                ([D(1), C('#if 1'), mk(0x40, 0x4F), C('#else\n#create_memzone ZD $20 $2F\n#endif'), {'k': 'memzone', 'name': 'ZD'}, D(2, 3)], None),
+                ([mk(0x20, 0x2F), C('#if 0\n#create_memzone ZD $30 $3F\n#endif'), {'k': 'memzone', 'name': 'ZD'}, D(2)], None),
+                ([C('#if 0\n#create_memzone ZD $30 $3F\n#elif 0\n#create_memzone ZD $50 $5F\n#endif'), mk(0x20, 0x2F), {'k': 'org', 'addr': 3, 'zone_name': 'ZD'}, D(2)], None),
+                ([C('#if 0\n#if 1\n#create_memzone ZD $30 $3F\n#endif\n#endif'), D(4), {'k': 'memzone', 'name': 'ZD'}, D(2)], 'REJECT')]):
+            for ab in (12, 16):
+                rng = core.rng_for(0, self.pid, 'dead-create', k, ab)
+                isa = gen_prog.layout_isa(ab)
+                import copy
+                yield self.finish(rng, isa, copy.deepcopy(main), {}, ab, [], None, None, {'create:in-a-branch-that-is-not-compiled'}, force_kind=force)
+
+    def muted_selection_cases(self):
+        """a zone or origin directive inside #mute .. #unmute selects and positions like any other: muting silences bytes, nothing else"""
+        C = lambda t: {'k': 'comment', 'text': t}                     # noqa: E731
+        D = lambda *v: {'k': 'data', 'width': 1, 'vals': list(v)}     # noqa: E731
+        zones = [{'name': 'ZA', 'start': 0x20, 'end': 0x2F}, {'name': 'ZONE1', 'start': 0x30, 'end': 0x30}]
+        for k, (sel, unm) in enumerate([({'k': 'memzone', 'name': 'ZA'}, '#unmute'), ({'k': 'org', 'addr': 3, 'zone_name': 'ZA'}, '#emit'),
+                                        ({'k': 'org', 'addr': 0x40, 'zone_name': None}, '#unmute'), ({'k': 'memzone', 'name': 'ZONE1'}, '#unmute')]):
+            for tail in ((1,), (1, 2)):
+                for pre_zone in (None, 'ZA'):
+                    for ab in (12, 16):
+                        rng = core.rng_for(0, self.pid, 'muted-sel', k, len(tail), pre_zone, ab)
+                        main = [D(9)] + ([{'k': 'memzone', 'name': pre_zone}, D(8)] if pre_zone else []) + [C('#mute'), dict(sel), C(unm), D(*tail)]
+                        isa = gen_prog.layout_isa(ab, zones=zones)
+                        yield self.finish(rng, isa, main, {}, ab, zones, None, None, {'zone-selected-inside-a-muted-block'})
 
     def sticking_out_cases(self):
         """a zone predefined by the configuration may reach beyond a redefined GLOBAL zone; bytes may not"""
